@@ -197,7 +197,8 @@ func stageRun(raw json.RawMessage) Result {
 		obs["parseErr"] = o.ParseErr.Error()
 		return Result{OK: false, Obs: obs, Diff: "specification says this program is well-formed, parser rejects it: " + firstLine(o.ParseErr.Error())}
 	}
-	if o.AgainResult != "" && (o.AgainResult != o.Result || !reflect.DeepEqual(normEffects(o.AgainEffects), normEffects(o.Effects))) {
+	// (compared as text: a NaN argument of a platform call is not equal to itself)
+	if o.AgainResult != "" && (o.AgainResult != o.Result || effectString(normEffects(o.AgainEffects)) != effectString(normEffects(o.Effects))) {
 		return Result{OK: false, Obs: obs, Diff: fmt.Sprintf("the same syntax tree run a second time (new evaluator, same inputs and seed) behaves differently: %s with %d effects, then %s with %d effects; first difference: %s",
 			o.Result, len(o.Effects), o.AgainResult, len(o.AgainEffects), firstEffectDiff(normEffects(o.Effects), normEffects(o.AgainEffects)))}
 	}
@@ -241,7 +242,7 @@ func stageRun(raw json.RawMessage) Result {
 
 func firstEffectDiff(a, b []any) string {
 	for i := 0; i < len(a) && i < len(b); i++ {
-		if !reflect.DeepEqual(a[i], b[i]) {
+		if effectString(a[i]) != effectString(b[i]) {
 			return fmt.Sprintf("effect %d: %s vs %s", i, effectString(a[i]), effectString(b[i]))
 		}
 	}
